@@ -751,6 +751,8 @@ func (r *hdRun) project(conn int, data []byte) string {
 					terms = append(terms, fmt.Sprintf("%d", e))
 				}
 				return "(SLeave " + coqList(terms) + ")"
+			case "delete":
+				return "SRoomDeleted"
 			case "message":
 				tag := -1
 				if m.Event.Message != nil {
